@@ -54,23 +54,42 @@ def keyIndex (seen : List AKey) (k : AKey) : List AKey × Nat :=
   | some i => (seen, i)
   | none => (seen ++ [k], seen.length)
 
-def outStr (seen : List AKey) : Out → List AKey × String
-  | .selectBackend f cl k =>
-    let (seen', i) := keyIndex seen k
-    (seen', s!"sel {f} {if cl.isEmpty then "-" else cl} k{i}")
-  | .openUpstream f b => (seen, s!"open {f} {addrStr b}")
-  | .sendToBackend _ dst p => (seen, s!"tob {addrStr dst} {bytesToHex p}")
-  | .sendToClient _ dst p => (seen, s!"toc {addrStr dst} {bytesToHex p}")
-  | .armTimer t => (seen, s!"arm {t}")
-  | .metric m => (seen, metricStr m)
-  | .closeFlow f => (seen, s!"close {f}")
-  | .drop r => (seen, s!"drop {reasonStr r}")
+/-- canonicalisation state of the driver (never part of the model):
+    affinity-hash inputs seen, and — for the black-box rig — the incarnation
+    number (order of admission) of every live flow id -/
+structure Canon where
+  seen : List AKey
+  ghost : Bool
+  incs : List (Nat × Nat)
+  nextInc : Nat
+  lastSel : Option Nat
 
-def outsStr (seen : List AKey) (outs : List Out) : List AKey × String :=
-  let (seen', strs) := outs.foldl (fun (acc : List AKey × List String) o =>
-    let (sn, str) := outStr acc.1 o
-    (sn, acc.2 ++ [str])) (seen, [])
-  (seen', if strs.isEmpty then "-" else ";".intercalate strs)
+def Canon.incOf (c : Canon) (f : Nat) : String :=
+  match c.incs.find? (·.1 = f) with
+  | some p => toString p.2
+  | none => "?"
+
+def outStr (c : Canon) : Out → Canon × String
+  | .selectBackend f cl k =>
+    let (seen', i) := keyIndex c.seen k
+    ({ c with seen := seen', incs := (f, c.nextInc) :: c.incs.filter (·.1 ≠ f), nextInc := c.nextInc + 1,
+              lastSel := some f },
+     s!"sel {f} {if cl.isEmpty then "-" else cl} k{i}")
+  | .openUpstream f b => (c, s!"open {f} {addrStr b}")
+  | .sendToBackend f dst p =>
+    (c, if c.ghost then s!"tob@{c.incOf f} {addrStr dst} {bytesToHex p}" else s!"tob {addrStr dst} {bytesToHex p}")
+  | .sendToClient f dst p =>
+    (c, if c.ghost then s!"toc@{c.incOf f} {addrStr dst} {bytesToHex p}" else s!"toc {addrStr dst} {bytesToHex p}")
+  | .armTimer t => (c, s!"arm {t}")
+  | .metric m => (c, metricStr m)
+  | .closeFlow f => ({ c with incs := c.incs.filter (·.1 ≠ f) }, s!"close {f}")
+  | .drop r => (c, s!"drop {reasonStr r}")
+
+def outsStr (c : Canon) (outs : List Out) : Canon × String :=
+  let (c', strs) := outs.foldl (fun (acc : Canon × List String) o =>
+    let (cn, str) := outStr acc.1 o
+    (cn, acc.2 ++ [str])) (c, [])
+  (c', if strs.isEmpty then "-" else ";".intercalate strs)
 
 def summary (s : State) : String :=
   let t := match s.armed with | some d => toString d | none => "-"
@@ -114,11 +133,32 @@ def parseOp (ws : List String) : Option Op :=
 
 structure DState where
   s : State
-  seen : List AKey
+  c : Canon
 
 def emptyCfg : Cfg :=
   { cluster := "", withPort := false, responses := 0, requests := 0, frontTo := 0, backTo := 0,
     sendPP := false, ppEvery := false }
+
+def emptyCanon : Canon := { seen := [], ghost := false, incs := [], nextInc := 0, lastSel := none }
+
+/-- rig sugar (driver level only): `rr <backend-id> <addr> <now>` resolves the most
+    recently selected flow; `bi <incarnation> <hex> <now>` is a backend datagram on
+    the flow admitted `incarnation`-th (an unused id when that flow is gone) -/
+def parseSugar (c : Canon) (ws : List String) : Option Op :=
+  match ws with
+  | ["rr", bid, a, now] =>
+    match parseAddr a, now.toNat? with
+    | some a, some now => some (.resolved (c.lastSel.getD 999999) bid a now)
+    | _, _ => none
+  | ["bi", inc, p, now] =>
+    match inc.toNat?, hexToBytes p, now.toNat? with
+    | some inc, some p, some now =>
+      let f := match c.incs.find? (·.2 = inc) with
+        | some q => q.1
+        | none => 999999
+      some (.backend f p now)
+    | _, _, _ => none
+  | _ => none
 
 def stepLine (st : DState) (line : String) : DState × List String :=
   match words line with
@@ -126,15 +166,16 @@ def stepLine (st : DState) (line : String) : DState × List String :=
     match mf.toNat?, mr.toNat?, parseCfg rest with
     | some mf, some mr, some cfg =>
       let s := State.new cfg mf mr
-      ({ s, seen := [] }, ["new | " ++ summary s])
+      ({ s, c := emptyCanon }, ["new | " ++ summary s])
     | _, _, _ => (st, ["bad-op"])
   | ["dump"] => (st, [dump st.s])
+  | ["ghost", "on"] => ({ st with c := { st.c with ghost := true } }, ["ghost"])
   | ws =>
-    match parseOp ws with
+    match (parseOp ws).orElse (fun _ => parseSugar st.c ws) with
     | some op =>
       let (s', outs) := step st.s op
-      let (seen', str) := outsStr st.seen outs
-      ({ s := s', seen := seen' }, [str ++ " | " ++ summary s'])
+      let (c', str) := outsStr st.c outs
+      ({ s := s', c := c' }, [str ++ " | " ++ summary s'])
     | none => (st, ["bad-op"])
 
-def main : IO Unit := runDriver stepLine { s := State.new emptyCfg 0 0, seen := [] }
+def main : IO Unit := runDriver stepLine { s := State.new emptyCfg 0 0, c := emptyCanon }
